@@ -347,8 +347,11 @@ let cmd_lookup_gen streams args =
        | _ -> failwith "lookup: bad header")
   | _ -> failwith "lookup: bad args"
 
+let cmd_backup_phases _ =
+  print_endline (String.concat "," (List.map (function PhLoose -> "loose" | PhDump -> "dump" | PhCopyDump -> "copydump" | PhPacks -> "packs" | PhRest -> "rest") backup_phases))
+
 let () =
-  let extra = ref [("lookup", cmd_lookup_gen None); ("lookup_events", cmd_lookup_gen (Some true)); ("lookup_events_meta", cmd_lookup_gen (Some false)); ("pick", cmd_pick); ("estimate", cmd_estimate); ("plan", cmd_plan); ("segs", cmd_segs); ("por", cmd_por); ("bio", cmd_bio true); ("fio", cmd_bio false); ("zsd", cmd_zsd)] in
+  let extra = ref [("backup_phases", cmd_backup_phases); ("lookup", cmd_lookup_gen None); ("lookup_events", cmd_lookup_gen (Some true)); ("lookup_events_meta", cmd_lookup_gen (Some false)); ("pick", cmd_pick); ("estimate", cmd_estimate); ("plan", cmd_plan); ("segs", cmd_segs); ("por", cmd_por); ("bio", cmd_bio true); ("fio", cmd_bio false); ("zsd", cmd_zsd)] in
   try
     while true do
       let line = input_line stdin in
